@@ -20,6 +20,8 @@
 #define EXPR_UTIL_H
 #include "c_exprtype.h"
 
+extern int g_no_error;      /* stubs/base.c */
+
 enum {
 	BS_ENA = AT_N, BS_ENB, BS_VOID, BS_S1, BS_S2, BS_S3INC, BS_FN, BS_PI, BS_ARR3, BS_ARRINC, BS_U1, BS_N,
 	TS_PTR = BS_N, TS_NULLPTR, TS_N
@@ -188,11 +190,14 @@ mk_operand(unsigned ek, struct type *t, u64 v, unsigned before, unsigned after, 
 	((ek) == EK_CONST && (((ts) == TS_NULLPTR) || (v) == 0 && (TS_ISINT(ts) || (ts) == TS_PTR && (bs) == BS_VOID && (q) == QUALNONE)))
 
 /*
- * Allocation recorder (compile the unit with -DVERIF_OWN_XMALLOC so that stubs/base.c does not define xmalloc).
+ * Allocation recorder and post-state OBSERVERS (compile the unit with -DVERIF_OWN_XMALLOC so that stubs/base.c does not
+ * define xmalloc).
+ *
  * CBMC 6.11 loses the points-to set of a pointer that was stored into the union `struct expr.u` of a heap node and read
- * back (dereferencing e->u.binary.l yields an invalid object although e->u.binary.l == <the node> is provable).  Every
- * node the function under contract creates is therefore recorded, and POST looks at a node only through NODE(p), which
- * is the identity on pointers but re-reads p from the recorder / the ghosts, whose points-to sets are intact.
+ * back (dereferencing e->u.binary.l yields an invalid object although e->u.binary.l == <the node> is provable), and its
+ * value-set based simplifier explodes on POST clauses that compare such pointers.  Therefore: every node the function
+ * under contract creates is recorded; after the call the returned tree is abstracted ONCE, by plain C code that runs
+ * identically in the native replay, into scalar observations (struct nodeobs); POST clauses speak about those scalars.
  */
 #define NALLOC 8
 void *g_alloc[NALLOC];
@@ -210,11 +215,160 @@ xmalloc(size_t n)
 	return p;
 }
 
-#define AS_EXPR(p) ((struct expr *)(p))
-#define NODE(x) ((x) == g_alloc[0] ? AS_EXPR(g_alloc[0]) : (x) == g_alloc[1] ? AS_EXPR(g_alloc[1]) : \
-                 (x) == g_alloc[2] ? AS_EXPR(g_alloc[2]) : (x) == g_alloc[3] ? AS_EXPR(g_alloc[3]) : \
-                 (x) == g_alloc[4] ? AS_EXPR(g_alloc[4]) : (x) == g_alloc[5] ? AS_EXPR(g_alloc[5]) : \
-                 (x) == g_alloc[6] ? AS_EXPR(g_alloc[6]) : (x) == g_alloc[7] ? AS_EXPR(g_alloc[7]) : (x))
+/* same heap object?  (nodes and types are whole objects; comparing object numbers instead of pointers keeps CBMC's
+   simplifier quiet) */
+#ifdef VERIF_REPLAY
+#define SAMENODE(p, q) ((void *)(p) == (void *)(q))
+#else
+#define SAMENODE(p, q) ((p) != 0 && (q) != 0 && __CPROVER_POINTER_OBJECT(p) == __CPROVER_POINTER_OBJECT(q))
+#endif
+
+/* the operands handed to the function under contract (g_r == 0 for unary functions) and their types */
+struct expr *g_l, *g_r;
+struct type *g_lt, *g_rt;
+
+/* who is this node? */
+enum { W_NULL, W_L, W_R, W_NEW, W_OTHER };
+/* which type is this?  0..BS_N-1: ty_base[k]; TSEL_NULLPTR; TSEL_L / TSEL_R: the (fresh pointer) type object of the
+   left / right operand; TSEL_NEW: a type object created by the call; TSEL_OTHER */
+enum { TSEL_NULLPTR = TS_NULLPTR, TSEL_L = 100, TSEL_R, TSEL_NEW, TSEL_OTHER, TSEL_NONE };
+
+struct nodeobs {
+	int who;
+	int kind, op;
+	int ts;            /* TSEL of ->type */
+	int base;          /* who of ->base */
+	bool lvalue, decayed;
+	unsigned qual;
+	u64 cval;          /* ->u.constant.u when kind == EXPRCONST */
+	/* when ts == TSEL_NEW (a pointer type made by the call): */
+	int pbase;         /* TSEL of ->type->base */
+	unsigned pqual;    /* ->type->qual */
+	int pkind;         /* ->type->kind */
+};
+
+static int
+recorded(const void *p)
+{
+	unsigned k;
+
+	for (k = 0; k < NALLOC; ++k) {
+		if (k < g_nalloc && SAMENODE(p, g_alloc[k]))
+			return (int)k;
+	}
+	return -1;
+}
+
+static int
+whois(struct expr *p)
+{
+	if (!p)
+		return W_NULL;
+	if (SAMENODE(p, g_l))
+		return W_L;
+	if (SAMENODE(p, g_r))
+		return W_R;
+	if (recorded(p) >= 0)
+		return W_NEW;
+	return W_OTHER;
+}
+
+static int
+tysel(struct type *t)
+{
+	unsigned k;
+
+	if (!t)
+		return TSEL_NONE;
+	for (k = 0; k < BS_N; ++k) {
+		if (SAMENODE(t, ty_base[k]))
+			return (int)k;
+	}
+	if (SAMENODE(t, &typenullptr))
+		return TSEL_NULLPTR;
+	if (SAMENODE(t, g_lt))
+		return TSEL_L;
+	if (SAMENODE(t, g_rt))
+		return TSEL_R;
+	if (recorded(t) >= 0)
+		return TSEL_NEW;
+	return TSEL_OTHER;
+}
+
+/* the node p points to, through a pointer whose points-to set is intact */
+static struct expr *
+NODE(struct expr *p)
+{
+	int k;
+
+	if (SAMENODE(p, g_l))
+		return g_l;
+	if (SAMENODE(p, g_r))
+		return g_r;
+	k = recorded(p);
+	if (k == 0) return g_alloc[0];
+	if (k == 1) return g_alloc[1];
+	if (k == 2) return g_alloc[2];
+	if (k == 3) return g_alloc[3];
+	if (k == 4) return g_alloc[4];
+	if (k == 5) return g_alloc[5];
+	if (k == 6) return g_alloc[6];
+	if (k == 7) return g_alloc[7];
+	return p;
+}
+
+static struct type *
+TNODE(struct type *t)
+{
+	int k = recorded(t);
+
+	if (k == 0) return g_alloc[0];
+	if (k == 1) return g_alloc[1];
+	if (k == 2) return g_alloc[2];
+	if (k == 3) return g_alloc[3];
+	if (k == 4) return g_alloc[4];
+	if (k == 5) return g_alloc[5];
+	if (k == 6) return g_alloc[6];
+	if (k == 7) return g_alloc[7];
+	return t;
+}
+
+static void
+observe(struct nodeobs *o, struct expr *p)
+{
+	struct expr *n;
+	struct type *t;
+
+	o->who = whois(p);
+	o->kind = o->op = -1;
+	o->ts = o->pbase = TSEL_NONE;
+	o->base = W_NULL;
+	o->lvalue = o->decayed = false;
+	o->qual = o->pqual = 0;
+	o->pkind = -1;
+	o->cval = 0;
+	if (o->who == W_NULL || o->who == W_OTHER)
+		return;
+	n = NODE(p);
+	o->kind = n->kind;
+	o->op = n->op;
+	o->ts = tysel(n->type);
+	o->base = whois(n->base);
+	o->lvalue = n->lvalue;
+	o->decayed = n->decayed;
+	o->qual = n->qual;
+	if (n->kind == EXPRCONST)
+		o->cval = n->u.constant.u;
+	if (o->ts == TSEL_NEW) {
+		t = TNODE(n->type);
+		o->pkind = t->kind;
+		o->pbase = tysel(t->base);
+		o->pqual = t->qual;
+	}
+}
+
+/* "the type with selector ts is the arithmetic type with code c" (the type itself or an enum compatible with it) */
+#define TSIS(ts, c)  ((c) >= 0 && ((ts) == (c) || ((ts) == BS_ENA && (int)g_enAb == (c)) || ((ts) == BS_ENB && (int)g_enBb == (c))))
 
 #ifndef EXPR_OWN_EVAL
 /* ASSUMED: folding is proved on eval.c itself (EVAL.*); here operands are already folded: eval(e) == e */
